@@ -33,6 +33,10 @@ claim("C04",
       "table agreement between the write map (FromInternal/insertSubject), the read map (ToInternal) and db tags; symbolic evaluation + parsing of the INSERT/DELETE/SELECT builders and pop Where fragments with a per-placeholder check that the bound Go expression is the internal field stored in that column; guard check of whereQuery; def-use check that write handlers pass only Mapper().FromTuple results to the store and that FromTuple validates before appending; audit that persistence/sql keeps no process-local mutable state",
       "Decides column-level write/read/match agreement, validated-input-only writes and the absence of process-local caches in the storage layer; does not decide database semantics or the multiset behaviour over histories. Right level: which Go field is bound to which column placeholder is a static fact of the builders.")
 
+claim("C07",
+      "agreement check over the evaluated query chain of GetRelationTuples (ORDER BY column = strict '>' cursor column = db tag of the token field; LIMIT = has-more threshold + 1; truncate-then-token order) and over the parsed traversal SELECT; finite-domain evaluation of the page-size normalisation; status-code resolution of every error returned for malformed pagination input; def-use check that internal consumers feed the returned token into the next call and loop to the empty token",
+      "Decides that the keyset mechanics are self-consistent, that malformed tokens/sizes are client errors and that internal consumers read all pages; does not decide behaviour under concurrent writes beyond what a strict '>' on a unique key implies. Right level: cursor/limit/token agreement is a relation between code sites.")
+
 for p in ["C04","C05","C06","C07","C08","C09","C11","C12","C13","C14","C16","C18","C19"]:
     na(p, NOTBUILT)
 na("C10", "semantic equivalence between the parser's output and TypeScript's grammar over all programs: precedence/associativity is not a code shape every correct parser shares; no sound structural necessary condition found (and the property is known to be violated: a||b&&c parses as (a||b)&&c), so a static green light would be misleading")
